@@ -23,6 +23,8 @@ func runC16(ctx *Ctx) {
 	pv := newCorr("prevnext")
 	ls := newCorr("linkscore")
 	defer ls.run(ctx)
+	pgi := newCorr("pageinfo")
+	defer pgi.run(ctx)
 	run := func(c pagerCase) {
 		defer func() {
 			if r := recover(); r != nil {
@@ -38,6 +40,7 @@ func runC16(ctx *Ctx) {
 		d := parseDoc(c.HTML)
 		targets := anchorTargets(d.Root, page)
 		addLinkScoreCases(ls, rep, c.HTML, page, c)
+		addPageInfoCases(pgi, rep, c.HTML, page, c)
 		for _, algo := range []distiller.PaginationAlgo{distiller.PrevNext, distiller.PageNumber} {
 			name := "prevnext"
 			if algo == distiller.PageNumber {
